@@ -383,6 +383,17 @@ func (c *Ctx) followWhole(info *types.Info, cl *model.Clause, sw *model.TypeSwit
 	for round := 0; round < 3; round++ {
 		for _, st := range cl.CC.Body {
 			ast.Inspect(st, func(n ast.Node) bool {
+				// the element variable of a range over something selected from the node
+				if rs, ok := n.(*ast.RangeStmt); ok && mentionsDerived(rs.X) {
+					for _, kv := range []ast.Expr{rs.Key, rs.Value} {
+						if id, ok := kv.(*ast.Ident); ok {
+							if o := info.Defs[id]; o != nil {
+								derived[o] = true
+							}
+						}
+					}
+					return true
+				}
 				as, ok := n.(*ast.AssignStmt)
 				if !ok || len(as.Lhs) != len(as.Rhs) {
 					return true
